@@ -136,7 +136,15 @@ func judgeComments(src, out string) (class, detail string, untouchedWithComments
 			return "comment-invented-or-duplicated", fmt.Sprintf("comment %q occurs more often in the output than in the input", c), 0, ""
 		}
 	}
-	if joinC(a.Header) != joinC(b.Header) {
+	// header and package comments: all there, once, in order. A comment of a rewritten declaration that ends up on
+	// the package clause's line (merged lines) is not invented (the multiset check above) and is tolerated here.
+	hi := 0
+	for _, c := range b.Header {
+		if hi < len(a.Header) && a.Header[hi] == c {
+			hi++
+		}
+	}
+	if hi != len(a.Header) {
 		return "header-comments-changed", fmt.Sprintf("%q => %q", joinC(a.Header), joinC(b.Header)), 0, ""
 	}
 	da, db := nonImport(a.Decls), nonImport(b.Decls)
@@ -215,7 +223,10 @@ var c17Patches = []string{
 }
 
 // commentDenseFile generates a file with comments of every kind at every attachment point.
-func commentDenseFile(g *gen.G) string {
+func commentDenseFile(g *gen.G) string { return commentDenseFileImports(g, false) }
+
+// commentDenseFileImports: with needImports the file always has import declarations (for import-changing patches).
+func commentDenseFileImports(g *gen.G, needImports bool) string {
 	r := g.R
 	cn := 0
 	cm := func(kind string) string {
@@ -249,7 +260,15 @@ func commentDenseFile(g *gen.G) string {
 		sb.WriteString("package p\n\n")
 	}
 	hasImports := false
-	switch r.Intn(6) {
+	layout := r.Intn(7)
+	if needImports {
+		layout = []int{0, 2, 3, 4, 4}[r.Intn(5)]
+	}
+	switch layout {
+	case 4:
+		// several import declarations: adding or removing an import merges them
+		sb.WriteString("import \"os\"\nimport \"fmt\"\nimport \"strings\"\n\n")
+		hasImports = true
 	case 0, 1:
 		sb.WriteString("import (\n\t\"fmt\" " + cm("line") + "\n\t" + cm("line") + "\n\t\"os\"\n)\n\n")
 		hasImports = true
@@ -259,6 +278,10 @@ func commentDenseFile(g *gen.G) string {
 	case 3:
 		sb.WriteString("import \"os\"\nimport \"fmt\" " + cm("line") + "\n\n")
 		hasImports = true
+	}
+	if needImports && r.Intn(2) == 0 {
+		// the declaration right behind the imports: undocumented, with comments inside, nothing to rewrite in it
+		fmt.Fprintf(&sb, "type TFirst struct {\n\t%s\n\tA int %s\n\tB string\n\t%s\n}\n\n", cm("line"), cm("line"), cm("block"))
 	}
 	nd := 2 + r.Intn(7)
 	for i := 0; i < nd; i++ {
@@ -386,7 +409,9 @@ func runC17(ctx *core.Ctx, idx int) *core.Result {
 		}
 		res.Ob("random-pattern-cases", 1)
 	} else {
-		pt = c17Patches[r.Intn(len(c17Patches))]
+		pi := r.Intn(len(c17Patches))
+		pt = c17Patches[pi]
+		needImports := pi >= len(c17Patches)-3 // the import-changing patches
 		switch r.Intn(4) {
 		case 0:
 			pt = pt + "\n" + c17Patches[r.Intn(len(c17Patches))]
@@ -395,7 +420,7 @@ func runC17(ctx *core.Ctx, idx int) *core.Result {
 			pt = c17Patches[r.Intn(3)] + "\n" + c17Patches[12+r.Intn(3)] + "\n" + pt
 		}
 		for f := 0; f < 6; f++ {
-			s := commentDenseFile(g)
+			s := commentDenseFileImports(g, needImports)
 			if gen.Parses(s) {
 				srcs = append(srcs, s)
 			}
@@ -454,6 +479,15 @@ func realComments(cg *ast.CommentGroup) []*ast.Comment {
 	for _, c := range cg.List {
 		if strings.TrimSpace(c.Text) == "//" {
 			continue
+		}
+		if strings.HasPrefix(c.Text, "/*") && strings.Contains(c.Text, "\n") {
+			// go/printer re-indents the lines of a multi-line block comment with the code around it: the
+			// leading white space of its lines is layout
+			ls := strings.Split(c.Text, "\n")
+			for i := range ls {
+				ls[i] = strings.TrimLeft(ls[i], " \t")
+			}
+			c = &ast.Comment{Slash: c.Slash, Text: strings.Join(ls, "\n")}
 		}
 		out = append(out, c)
 	}
